@@ -298,7 +298,23 @@ impl<W: WorldOps> Engine<W> {
         let (out, alloc_calls) = match res {
             Ok(o) => o,
             Err(c) => {
-                self.unexpected_panic(Some(wi), "create", &c);
+                // an implementation may advance the archetype version on creation too; its
+                // overflow panic is then as documented as the one in destroy
+                let at_limit = !self.wrapping && a.dump(&self.sl(wi).w).version == u32::MAX;
+                if at_limit && c.contains("version overflow") {
+                    self.rep.count("overflow.panic.in_create");
+                    for c in row.iter() {
+                        if c.0 != 0 && with_reg(|r| r.is_live(c.0)) {
+                            self.leaked.insert(c.0);
+                        }
+                    }
+                    self.after_fault(wi, &[], "version overflow panic in create");
+                    if a.len(&self.sl(wi).w) != len0 {
+                        self.viol(Some(wi), &["C10", "C12"], "len", format!("{}: len changed by a create that panicked", a.name()));
+                    }
+                } else {
+                    self.unexpected_panic(Some(wi), "create", &c);
+                }
                 return None;
             }
         };
@@ -414,11 +430,11 @@ impl<W: WorldOps> Engine<W> {
         self.rep.count(&format!("op.destroy.{}.{}", DESTROY_NAMES[level], KEY_KINDS[kind]));
         let len0 = a.len(&self.slot(wi).w);
         let row = self.slot(wi).m.ents[uid].row.clone();
+        let expect_overflow = alive && self.expect_version_overflow(wi, uid);
         let res = {
             let s = self.worlds[wi].as_mut().unwrap();
             guard(|| a.destroy(&mut s.w, level, key))
         };
-        let expect_overflow = alive && self.expect_version_overflow(wi, uid);
         let out = match res {
             Ok(o) => o,
             Err(c) => {
